@@ -54,8 +54,10 @@ theorem c02_cache_is_computed_now (x : Ext K) (o : XOps K) (P : Problem U s) (α
           split at h
           · simp only at h
             split at h
+            · split at h
+              · cases h
+              · cases h; rfl
             · cases h
-            · cases h; rfl
           · cases h
 
 /-- **c02_residual_layout**: the residual vector is the column-after-column stacking of the cached
